@@ -19,8 +19,12 @@ namespace SerfModel.Keyring
 abbrev Key := List UInt8
 abbrev Ring := List Key
 
+/-- the key lengths `ValidateKey` accepts (AES-128/192/256); tied to memberlist's source by
+`SerfProofs.C22.C22_src_valid_lens` -/
+def validLens : List Nat := [16, 24, 32]
+
 /-- `ValidateKey`: 16, 24 or 32 bytes -/
-def validKey (k : Key) : Bool := k.length == 16 || k.length == 24 || k.length == 32
+def validKey (k : Key) : Bool := validLens.contains k.length
 
 /-- `installKeys(keys, primaryKey)`: the primary first, then every key different from it -/
 def installKeys (keys : List Key) (primary : Key) : Ring :=
